@@ -116,7 +116,119 @@ def run_scenario(name, strategy):
         final = {'str': {x: {k: int(v) for k, v in dict(par[x].value).items()} for x in ('s', 'c')},
                  'mem': {x: {k: int(par[f'{x}_{k}'].value) for k in MEMBERS} for x in ('s', 'c')},
                  'idx': int(par['r_idx'].value), 'fval': int(par['r'].value / TICK)}
-    tr = [{'ev': 'cfg', 'scripts': SCEN[name]}]
+    hw0 = {x: {k: 0 for k in MEMBERS} for x in ('s', 'c')}
+    final['hw'] = hw0
+    tr = [{'ev': 'cfg', 'scripts': SCEN[name], 'hw': hw0}]
+    for e in s.events:
+        if e['ev'] == 'emit':
+            tr.append({k: v for k, v in e.items() if k not in ('seq', 'vt')})
+    tr.append(dict(final, ev='end'))
+    if s.deadlock or s.livelock or any(t.exc is not None for t in s.threads.values()):
+        tr.append({'ev': 'broken', 'why': 'deadlock' if s.deadlock else 'livelock' if s.livelock else
+                   repr([t.exc for t in s.threads.values() if t.exc is not None])[:200]})
+    return {'choices': [c for _, c in s.choices], 'raw_choices': list(s.choices), 'trace': tr}
+
+
+# ------------------------------------------------------------------ struct read against member writes
+
+def rs():
+    return ('drv', {'k': 'rs', 'x': 's'})
+
+
+def wm(via, m, v):
+    return (via, {'k': 'wm', 'x': 's', 'm': m, 'v': v})
+
+
+# thread -> [(via, job)]: read_<struct>() as the poller calls it, write_<member> directly or as a change request
+RSCEN = {
+    'read_vs_write': {'t1': [rs()], 't2': [wm('drv', 'q', 5)]},
+    'read_vs_client_write': {'t1': [rs()], 't2': [wm('cli', 'q', 5)]},
+    'reads_vs_writes': {'t1': [rs(), rs()], 't2': [wm('drv', 'p', 4), wm('cli', 'r', 6)]},
+    'two_writers_one_reader': {'t1': [wm('drv', 'p', 4)], 't2': [wm('cli', 'q', 5)], 't3': [rs()]},
+}
+HW0 = {'p': 1, 'q': 2, 'r': 3}         # the hardware differs from the start values of the cache
+
+
+def run_readwrite(name, strategy):
+    boot()
+    import frappy.extparams as ep
+    import frappy.modulebase as mb
+    import frappy.protocol.dispatcher as dp
+    from frappy.datatypes import IntRange
+    from frappy.modules import Module
+    from frappy.params import Parameter
+    scripts = RSCEN[name]
+    s = ds.Scheduler(strategy, max_steps=60000, trace_files=('frappy/modulebase.py', 'frappy/extparams.py'))
+    with ds.Patch(mb, ep, dp):
+        class SecNode:
+            def __init__(self):
+                self.modules = {}
+                self.export = []
+                self.name = 'n'
+
+            def get_module(self, n):
+                return self.modules.get(n)
+
+        class Srv:
+            restart = shutdown = None
+
+        class Disp(dp.Dispatcher):
+            def announce_update(self, moduleobj, pobj):
+                if s.me() is not None and pobj.readerror is None:
+                    par = moduleobj.parameters
+                    if pobj.name == 's':
+                        s.log(ev='emit', kind='str', x='s', m='', v={k: int(v) for k, v in dict(pobj.value).items()},
+                              snapmem={k: int(par['s_' + k].value) for k in MEMBERS})
+                    else:
+                        s.log(ev='emit', kind='mem', x='s', m=pobj.name[2:], v=int(pobj.value))
+                super().announce_update(moduleobj, pobj)
+
+        srv = Srv()
+        srv.secnode = SecNode()
+        disp = srv.dispatcher = Disp('d', LoggerStub(), {}, srv)
+        ns = {'s': ep.StructParam('struct without combined methods',
+                                  {k: Parameter('member ' + k, IntRange(0, 9), default=0) for k in MEMBERS}, 's_',
+                                  readonly=False),
+              'earlyInit': lambda self: None}
+        for k in MEMBERS:
+            ns['read_s_' + k] = lambda self, k=k: self.hw[k]
+
+            def wfunc(self, value, k=k):
+                self.hw = dict(self.hw, **{k: int(value)})
+                return self.hw[k]
+            ns['write_s_' + k] = wfunc
+        m = type('RW', (Module,), ns)('m', LoggerStub('m'), {'description': ''}, srv)
+        m.hw = dict(HW0)
+        m.s = {k: 0 for k in MEMBERS}       # start values without error flags
+        for k in MEMBERS:
+            setattr(m, 's_' + k, 0)
+        srv.secnode.modules['m'] = m
+        srv.secnode.export.append('m')
+
+        class Conn:
+            def send_reply(self, msg):
+                pass
+
+        def worker(script):
+            conn = Conn()
+            for via, j in script:
+                if j['k'] == 'rs':
+                    m.read_s()
+                elif via == 'cli':
+                    disp.handle_request(conn, ('change', 'm:' + m.parameters['s_' + j['m']].export, j['v']))
+                else:
+                    getattr(m, 'write_s_' + j['m'])(j['v'])
+
+        for th, script in sorted(scripts.items()):
+            s.spawn(th, worker, script)
+        s.run()
+        par = m.parameters
+        zero = {k: 0 for k in MEMBERS}
+        final = {'str': {'s': {k: int(v) for k, v in dict(par['s'].value).items()}, 'c': zero},
+                 'mem': {'s': {k: int(par['s_' + k].value) for k in MEMBERS}, 'c': zero},
+                 'hw': {'s': dict(m.hw), 'c': zero}, 'idx': 0, 'fval': TABLE[0]}
+    tr = [{'ev': 'cfg', 'scripts': {th: [j for _, j in sc] for th, sc in scripts.items()},
+           'hw': {'s': dict(HW0), 'c': zero}}]
     for e in s.events:
         if e['ev'] == 'emit':
             tr.append({k: v for k, v in e.items() if k not in ('seq', 'vt')})
@@ -231,7 +343,7 @@ def run_limits(name, strategy):
 
 
 def _runner(name):
-    return run_limits if name in LSCEN else run_scenario
+    return run_limits if name in LSCEN else run_readwrite if name in RSCEN else run_scenario
 
 
 def _explore(args):
@@ -283,6 +395,9 @@ def executions(chk, pool):
     for name in SCEN:
         jobs.append((name, 'dfs', chk.seed, 50 if quick else 800))
         jobs.append((name, 'rnd', chk.seed + 5, 30 if quick else 400))
+    for name in RSCEN:
+        jobs.append((name, 'dfs', chk.seed, 40 if quick else 600))
+        jobs.append((name, 'rnd', chk.seed + 7, 20 if quick else 300))
     for name in LSCEN:
         jobs.append((name, 'dfs', chk.seed, 40 if quick else 600))
         jobs.append((name, 'rnd', chk.seed + 9, 20 if quick else 300))
